@@ -533,6 +533,9 @@ class BosonicBackend(BaseBosonic):
         means = means[filt]
         cov = cov[filt]
 
+        # the discarded components carried weight: normalize again
+        weights /= np.sum(weights)
+
         # applying a rotation if necessary
         if not np.isclose(theta, 0):
             S = np.array([[np.cos(theta), -np.sin(theta)], [np.sin(theta), np.cos(theta)]])
